@@ -197,8 +197,21 @@ pub fn span_events(args: &Args) {
             typed::<Vec<Kind>>("enum_array", &text, &mut ty);
             typed::<Vec<(Kind, i64)>>("enum_tuple_array", &text, &mut ty);
         }
+        // the whole document as Spanned<Table>: wrapping never changes whether decoding succeeds, also when the root
+        // table's own range is empty (a document that starts with a header)
+        let root = {
+            let p = catch_unwind(AssertUnwindSafe(|| toml::from_str::<toml::Table>(&text).map(|t| proj::toml_table(&t))));
+            let s = catch_unwind(AssertUnwindSafe(|| toml::from_str::<Spanned<toml::Table>>(&text).map(|t| (proj::toml_table(t.get_ref()), t.span()))));
+            let pj = match &p { Ok(Ok(t)) => json!({"res": "ok", "val": t}), Ok(Err(_)) => json!({"res": "err", "val": proj::dummy()}), Err(_) => json!({"res": "panic", "val": proj::dummy()}) };
+            let sj = match &s {
+                Ok(Ok((t, sp))) => json!({"res": "ok", "val": t, "sp": [sp.start, sp.end]}),
+                Ok(Err(_)) => json!({"res": "err", "val": proj::dummy(), "sp": []}),
+                Err(_) => json!({"res": "panic", "val": proj::dummy(), "sp": []}),
+            };
+            json!({"plain": pj, "spanned": sj})
+        };
         writeln!(out, "{}", json!({"ev": "span", "id": r["id"], "text": r["text"], "res": res, "tree": tree,
-                                   "into_mut": mut_tree, "docmut": dm, "typed": ty})).unwrap();
+                                   "into_mut": mut_tree, "docmut": dm, "typed": ty, "root": root})).unwrap();
     }
 }
 
